@@ -143,6 +143,8 @@ let wr line =
 let prompt_index (p : n list) : int =
   let rec go i = function [] -> 99 | x :: r -> if x = p then i else go (i + 1) r in go 0 pROMPTS
 
+let calls_fmt : (n list * n list list -> string) ref = ref (fun (n, a) -> Printf.sprintf "%s(%s)" (hex n) (args_str a))
+
 let session (cs : cmdset) (handler : nat -> n list -> n list list -> hop list) cap hcap pi ops : string =
   let fail_at = ref (-1) and perm = ref false in
   let okf (n : nat) = let n = int_of_nat n in
@@ -151,7 +153,7 @@ let session (cs : cmdset) (handler : nat -> n list -> n list list -> hop list) c
   let out = ref [] in
   let snapshot r =
     let s = !st in
-    let calls = join "+" (List.map (fun (n, a) -> Printf.sprintf "%s(%s)" (hex n) (args_str a)) s.hcalls) in
+    let calls = join "+" (List.map (fun c -> !calls_fmt c) s.hcalls) in
     let histf = if !feats.f_hist then
         Printf.sprintf "%s/%s" (hex s.hist.hbuf) (match s.hist.hcur with Some c -> string_of_int (int_of_nat c) | None -> "N")
       else "-" in
@@ -179,12 +181,102 @@ let session (cs : cmdset) (handler : nat -> n list -> n list list -> hop list) c
     (List.filter (fun s -> s <> "") (split_on ';' ops));
   String.concat " ; " (List.rev !out)
 
+(* ---- derived command sets: declarations are read from the file named by VERIF_DECLS (written by gen/declgen.py) *)
+let opt_hex t = if t = "~" then None else Some (unhex t)
+
+let parse_value (t : string) : value =
+  let (k, x) = split_once ':' t in
+  match k with
+  | "s" -> VStr (unhex x) | "n" -> VNum (n_of_int (int_of_string x))
+  | "b" -> VBool (x = "1") | "c" -> VChr (n_of_int (int_of_string x))
+  | _ -> failwith "value"
+
+let parse_set_tokens (toks : string list) : cset =
+  let q = ref toks in
+  let next () = match !q with t :: r -> q := r; t | [] -> failwith "decl: unexpected end" in
+  let rec p_enum () : enumdecl =
+    let title = unhex (next ()) in
+    let n = int_of_string (next ()) in
+    let cmds = List.init n (fun _ -> p_cmd ()) in
+    { e_title = title; e_cmds = cmds }
+  and p_cmd () : cmddecl =
+    let name = unhex (next ()) in
+    let sh = opt_hex (next ()) in
+    let lg = opt_hex (next ()) in
+    let na = int_of_string (next ()) in
+    let args = List.init na (fun _ -> p_arg ()) in
+    let sub = match next () with
+      | "~" -> None
+      | "O" -> let e = p_enum () in Some ((true, e.e_title), e.e_cmds)
+      | "R" -> let e = p_enum () in Some ((false, e.e_title), e.e_cmds)
+      | _ -> failwith "sub" in
+    Cmd (name, sh, lg, args, sub)
+  and p_arg () : argdecl =
+    let field = unhex (next ()) in
+    let kind = match next () with
+      | "P" -> KPos
+      | k -> let l = opt_hex (next ()) in
+             let s = (match next () with "~" -> None | c -> Some (n_of_int (int_of_string c))) in
+             if k = "O" then KOpt (l, s) else KFlag (l, s) in
+    let ty = match next () with "S" -> TStr | "U" -> TU8 | "B" -> TBool | "C" -> TChar | _ -> failwith "ty" in
+    let optional = next () = "1" in
+    let dflt = match next () with
+      | "~" -> DNone | "s" -> DStr (unhex (next ())) | "v" -> DVal (parse_value (next ())) | _ -> failwith "default" in
+    let valname = unhex (next ()) in
+    let help = opt_hex (next ()) in
+    { a_field = field; a_kind = kind; a_ty = ty; a_optional = optional; a_default = dflt; a_valname = valname; a_help = help } in
+  match next () with
+  | "E" -> SEnum (p_enum ())
+  | "G" -> let n = int_of_string (next ()) in
+           SGroup (List.init n (fun _ -> let h = next () = "1" in let e = p_enum () in (h, e)))
+  | _ -> failwith "set"
+
+let decl_sets : cset array Lazy.t = lazy (
+  match Sys.getenv_opt "VERIF_DECLS" with
+  | None -> [||]
+  | Some path ->
+    let ic = open_in path in
+    let acc = ref [] in
+    (try while true do
+        let l = String.trim (input_line ic) in
+        if l <> "" then acc := parse_set_tokens (List.filter (fun t -> t <> "") (String.split_on_char ' ' l)) :: !acc
+      done with End_of_file -> ());
+    close_in ic;
+    Array.of_list (List.rev !acc))
+
+let value_str = function
+  | VStr s -> "s:" ^ hex s | VNum n -> "n:" ^ string_of_int (int_of_n n)
+  | VBool b -> "b:" ^ (if b then "1" else "0") | VChr c -> "c:" ^ string_of_int (int_of_n c)
+let rec canon (t : tval) : string =
+  match t with
+  | TV (name, fields, sub) ->
+    let fs = String.concat "," (List.map (fun (f, v) ->
+        hex f ^ "=" ^ (match v with FAbsent -> "N" | FPresent x -> "S" ^ value_str x | FPlain x -> value_str x)) fields) in
+    hex name ^ "{" ^ fs ^ "}" ^
+    (match sub with None -> "" | Some None -> ">N" | Some (Some t') -> ">(" ^ canon t' ^ ")")
+
+let bytes_of_string (s : string) : n list = List.init (String.length s) (fun i -> n_of_int (Char.code s.[i]))
+
+let session_decl (k : int) cap hcap pi ops : string =
+  let sets = Lazy.force decl_sets in
+  if k >= Array.length sets then "nodecl" else begin
+    let cs = sets.(k) in
+    let typed name args = match parse_set cs name args with POk t -> canon t | PErr _ -> "ERR" | PPanic -> raise Model_none in
+    let handler _ name args = [HWrite (bytes_of_string (typed name args))] in
+    let old = !calls_fmt in
+    calls_fmt := (fun (n, a) -> typed n a);
+    let r = (try session (cmdset_of cs) handler cap hcap pi ops with e -> calls_fmt := old; raise e) in
+    calls_fmt := old; r
+  end
+
 let ses line =
   match String.split_on_char ' ' line with
   | cap :: hcap :: pi :: cmdset :: rest ->
     let ops = String.concat " " rest in
     (match cmdset with
      | "raw" -> session raw_cmdset handler_raw (int_of_string cap) (int_of_string hcap) (int_of_string pi) ops
+     | d when String.length d > 1 && d.[0] = 'd' ->
+       session_decl (int_of_string (String.sub d 1 (String.length d - 1))) (int_of_string cap) (int_of_string hcap) (int_of_string pi) ops
      | _ -> "nodecl")
   | _ -> failwith "ses line"
 
